@@ -408,15 +408,206 @@ Theorem boundary_column_reads :
   end.
 Proof. vm_compute. repeat split; reflexivity. Qed.
 
+(* ------------------------------------------------------------------ read_denotes, line level:
+   on EVERY line the reader's classifier accepts (not only written ones) the reader returns what the
+   format defines, under the stated well-formedness of the fields the reader does not look at *)
+Lemma tp_kind_fields d l : tp_kind_is d l = true ->
+  exists f0 f1 f2 f3 f4 f5 f7, split_on COMMA l = [f0; f1; f2; f3; f4; f5; d; f7].
+Proof.
+  unfold tp_kind_is. intro H.
+  destruct (split_on COMMA l) as [|f0 [|f1 [|f2 [|f3 [|f4 [|f5 [|f6 [|f7 [|f8 r]]]]]]]]]; simpl in H; try discriminate.
+  apply text_eqb_eq in H. subst. repeat eexists.
+Qed.
+
+Lemma zbool_odd ki : ki = 0 \/ ki = 1 -> zbool ki = Z.odd ki.
+Proof. intros [E|E]; subst; reflexivity. Qed.
+
+Definition effects_01 (l : text) : Prop :=
+  forall f ki, nth_text (split_on COMMA l) 7 = Some f -> py_int f = Some ki -> ki = 0 \/ ki = 1.
+
+Theorem read_bpm_denotes l : is_timing_point l = true -> effects_01 l ->
+  denote_tp l = option_map TPBpm (read_bpm l).
+Proof.
+  intros H E. unfold read_bpm. rewrite H. cbn [negb]. cbv zeta.
+  destruct (tp_kind_fields _ _ H) as [f0 [f1 [f2 [f3 [f4 [f5 [f7 S]]]]]]].
+  unfold effects_01 in E. rewrite S in E. specialize (E f7). cbn [nth_text] in E.
+  unfold denote_tp. unfold COMMA in *. rewrite S. cbn [map nth_text obind].
+  unfold py_float, py_int in *.
+  change (parse_int (strip (t "1"))) with (Some 1).
+  destruct (parse_dec (strip f0)) as [o|]; cbn [obind]; [|reflexivity].
+  destruct (parse_dec (strip f1)) as [c|]; cbn [obind]; [|reflexivity].
+  destruct (parse_int (strip f2)) as [me|]; cbn [obind].
+  2:{ destruct (Qeq_bool c 0); reflexivity. }
+  destruct (parse_int (strip f3)) as [ss|]; cbn [obind].
+  2:{ destruct (Qeq_bool c 0); reflexivity. }
+  destruct (parse_int (strip f4)) as [si|]; cbn [obind].
+  2:{ destruct (Qeq_bool c 0); reflexivity. }
+  destruct (parse_int (strip f5)) as [v|]; cbn [obind].
+  2:{ destruct (Qeq_bool c 0); reflexivity. }
+  destruct (parse_int (strip f7)) as [ki|]; cbn [obind].
+  2:{ destruct (Qeq_bool c 0); reflexivity. }
+  destruct (Qeq_bool c 0); [reflexivity|]. cbn [option_map Z.eqb]. 
+  rewrite (zbool_odd ki (E ki eq_refl eq_refl)). reflexivity.
+Qed.
+
+Ltac split_options :=
+  unfold obind; cbn beta iota;
+  repeat match goal with |- context [match ?e with Some _ => _ | None => _ end] => destruct e end;
+  cbn [option_map]; try reflexivity.
+
+Definition meter_numeric (l : text) : Prop :=
+  forall f, nth_text (split_on COMMA l) 2 = Some f -> exists me, py_int f = Some me.
+
+(* (the reader ignores the meter field of an SV line; the format requires it to be an integer) *)
+Theorem read_sv_denotes l : is_slider_velocity l = true -> effects_01 l -> meter_numeric l ->
+  denote_tp l = option_map TPSv (read_sv l).
+Proof.
+  intros H E M. unfold read_sv. rewrite H. cbn [negb]. cbv zeta.
+  destruct (tp_kind_fields _ _ H) as [f0 [f1 [f2 [f3 [f4 [f5 [f7 S]]]]]]].
+  unfold effects_01 in E. rewrite S in E. specialize (E f7). cbn [nth_text] in E.
+  unfold meter_numeric in M. rewrite S in M. destruct (M f2 eq_refl) as [me ME].
+  unfold denote_tp. unfold COMMA in *. rewrite S. cbn [map nth_text].
+  unfold py_float, py_int in *. rewrite ME.
+  change (parse_int (strip (t "0"))) with (Some 0). unfold obind. cbn beta iota.
+  destruct (parse_int (strip f7)) as [ki|] eqn:K.
+  - pose proof (zbool_odd ki (E ki eq_refl eq_refl)) as Z. split_options; destruct (Qeq_bool _ 0); try reflexivity.
+    cbn [option_map Z.eqb]. rewrite Z. reflexivity.
+  - split_options; destruct (Qeq_bool _ 0); reflexivity.
+Qed.
+
+Lemma six_fields l : count COMMA l = 5%nat -> exists f0 f1 f2 f3 f4 ps, split_on COMMA l = [f0; f1; f2; f3; f4; ps].
+Proof.
+  intro H. pose proof (split_length_count COMMA l) as L. rewrite H in L.
+  destruct (split_on COMMA l) as [|f0 [|f1 [|f2 [|f3 [|f4 [|f5 [|f6 r]]]]]]]; simpl in L; try discriminate.
+  repeat eexists.
+Qed.
+
+Theorem read_hit_denotes l k : is_hit l = true ->
+  forall f0 f1 f2 f3 f4 ps, split_on COMMA l = [f0; f1; f2; f3; f4; ps] ->
+  strip ps = ps -> length (split_on COLON ps) = 5%nat ->
+  (exists y, py_int f1 = Some y) ->
+  (exists ty, py_int f3 = Some ty /\ Z.testbit ty 7 = false /\ Z.testbit ty 0 = true) ->
+  denote_ho k l = option_map HHit (read_hit l k).
+Proof.
+  intros H f0 f1 f2 f3 f4 ps S SP L5 [y Y] [ty [T [B7 B0]]].
+  unfold read_hit. rewrite H. cbn [negb]. cbv zeta.
+  unfold denote_ho. unfold COMMA, COLON in *. rewrite S. cbn [map last_text last nth_text obind]. rewrite SP.
+  destruct (split_on 58 ps) as [|c0 [|c1 [|c2 [|c3 [|c4 [|c5 r]]]]]]; simpl in L5; try discriminate.
+  cbn [nth_text]. unfold py_float, py_int in *. rewrite Y, T, B7, B0. unfold obind. cbn beta iota.
+  repeat match goal with |- context [match ?e with Some _ => _ | None => _ end] => destruct e end;
+  cbn [option_map]; try reflexivity.
+  rewrite x_to_col_exact. reflexivity.
+Qed.
+
+Theorem read_hold_denotes l k : is_hold l = true ->
+  forall f0 f1 f2 f3 f4 ps, split_on COMMA l = [f0; f1; f2; f3; f4; ps] ->
+  strip ps = ps -> length (split_on COLON ps) = 6%nat ->
+  (exists y, py_int f1 = Some y) ->
+  (exists ty, py_int f3 = Some ty /\ Z.testbit ty 7 = true) ->
+  denote_ho k l = option_map HHold (read_hold l k).
+Proof.
+  intros H f0 f1 f2 f3 f4 ps S SP L5 [y Y] [ty [T B7]].
+  unfold read_hold. rewrite H. cbn [negb]. cbv zeta.
+  unfold denote_ho. unfold COMMA, COLON in *. rewrite S. cbn [map last_text last nth_text]. rewrite SP.
+  destruct (split_on 58 ps) as [|c0 [|c1 [|c2 [|c3 [|c4 [|c5 [|c6 r]]]]]]]; simpl in L5; try discriminate.
+  cbn [nth_text]. unfold py_float, py_int in *. rewrite Y, T, B7. split_options.
+  rewrite x_to_col_exact. reflexivity.
+Qed.
+
+(* ------------------------------------------------------------------ section split *)
+Lemma index_of_app x a b : ~ In x a -> index_of x (a ++ x :: b) = Some (zlen a).
+Proof.
+  induction a as [|y a IH]; intro H.
+  - simpl. rewrite text_eqb_refl. reflexivity.
+  - simpl. destruct (text_eqb y x) eqn:E.
+    + apply text_eqb_eq in E. exfalso. apply H. left. exact E.
+    + rewrite IH by (intro I; apply H; right; exact I). unfold zlen. simpl length. rewrite Nat2Z.inj_succ. reflexivity.
+Qed.
+Lemma firstn_len_app {A} (a b : list A) : firstn (length a) (a ++ b) = a.
+Proof. induction a; simpl; congruence. Qed.
+Lemma skipn_len_app {A} (a b : list A) : skipn (length a) (a ++ b) = b.
+Proof. induction a; simpl; congruence. Qed.
+Lemma norm_ok n i : 0 <= i <= n -> norm_ix n i = i.
+Proof. intro H. unfold norm_ix. destruct (Z.ltb_spec i 0); lia. Qed.
+
+Lemma take_body_until (body rest : list text) (h : text) :
+  (forall l, In l body -> is_header l = false) -> is_header h = true ->
+  take_body (body ++ h :: rest) = body.
+Proof.
+  intros NB HH. induction body as [|l body IH]; simpl.
+  - rewrite HH. reflexivity.
+  - rewrite (NB l (or_introl eq_refl)). rewrite IH; auto. intros l' I. apply NB. right. exact I.
+Qed.
+Lemma take_body_all (body : list text) : (forall l, In l body -> is_header l = false) -> take_body body = body.
+Proof.
+  induction body as [|l body IH]; simpl; intro NB; auto.
+  rewrite (NB l (or_introl eq_refl)). rewrite IH; auto.
+Qed.
+Lemma section_app h a b : ~ In h a -> section h (a ++ h :: b) = Some (take_body b).
+Proof.
+  induction a as [|y a IH]; intro H; simpl.
+  - rewrite text_eqb_refl. reflexivity.
+  - destruct (text_eqb y h) eqn:E.
+    + apply text_eqb_eq in E. exfalso. apply H. left. exact E.
+    + apply IH. intro I. apply H. right. exact I.
+Qed.
+
+(* the model's split (index of the two headers + Python slices) and the specification's section
+   function pick the same lines, on every text whose two list sections come in file order *)
+Theorem section_split pre tps hos :
+  ~ In TP_HEADER pre -> ~ In HO_HEADER pre -> ~ In HO_HEADER tps ->
+  (forall l, In l tps -> is_header l = false) -> (forall l, In l hos -> is_header l = false) ->
+  let lines := pre ++ TP_HEADER :: tps ++ HO_HEADER :: hos in
+  exists ix_tp ix_ho,
+    index_of TP_HEADER lines = Some ix_tp /\ index_of HO_HEADER lines = Some ix_ho /\
+    py_slice_to lines ix_tp = pre /\
+    py_slice lines (ix_tp + 1) ix_ho = tps /\ py_slice_from lines (ix_ho + 1) = hos /\
+    section TP_HEADER lines = Some tps /\ section HO_HEADER lines = Some hos.
+Proof.
+  intros P1 P2 P3 NT NH lines.
+  exists (zlen pre), (zlen pre + 1 + zlen tps).
+  assert (L: zlen lines = zlen pre + 1 + zlen tps + 1 + zlen hos).
+  { unfold lines, zlen. rewrite app_length. simpl length. rewrite app_length. simpl length. lia. }
+  assert (Z0: 0 <= zlen pre /\ 0 <= zlen tps /\ 0 <= zlen hos) by (unfold zlen; lia).
+  assert (E2: lines = (pre ++ TP_HEADER :: tps) ++ HO_HEADER :: hos).
+  { unfold lines. rewrite <- app_assoc. reflexivity. }
+  assert (E3: lines = (pre ++ [TP_HEADER]) ++ tps ++ HO_HEADER :: hos).
+  { unfold lines. rewrite <- app_assoc. reflexivity. }
+  repeat split.
+  - apply index_of_app. exact P1.
+  - rewrite E2. rewrite index_of_app.
+    + f_equal. unfold zlen. rewrite app_length. simpl length. lia.
+    + intro I. apply in_app_or in I. destruct I as [I|[I|I]]; [exact (P2 I)|discriminate I|exact (P3 I)].
+  - unfold py_slice_to. rewrite norm_ok by lia. unfold zlen at 1. rewrite Nat2Z.id. apply firstn_len_app.
+  - unfold py_slice. rewrite !norm_ok by lia.
+    replace (Z.to_nat (zlen pre + 1)) with (length (pre ++ [TP_HEADER])) by (rewrite app_length; unfold zlen; simpl; lia).
+    rewrite E3 at 1. rewrite skipn_len_app.
+    replace (Z.to_nat (zlen pre + 1 + zlen tps - (zlen pre + 1))) with (length tps) by (unfold zlen; lia).
+    apply firstn_len_app.
+  - unfold py_slice_from. rewrite norm_ok by lia.
+    replace (Z.to_nat (zlen pre + 1 + zlen tps + 1)) with (length ((pre ++ TP_HEADER :: tps) ++ [HO_HEADER])).
+    2:{ rewrite !app_length. simpl length. unfold zlen. lia. }
+    replace lines with (((pre ++ TP_HEADER :: tps) ++ [HO_HEADER]) ++ hos).
+    2:{ rewrite E2. rewrite <- app_assoc. reflexivity. }
+    apply skipn_len_app.
+  - unfold lines. rewrite section_app by exact P1. f_equal. apply take_body_until; auto.
+  - rewrite E2. rewrite section_app.
+    + f_equal. apply take_body_all. exact NH.
+    + intro I. apply in_app_or in I. destruct I as [I|[I|I]]; [exact (P2 I)|discriminate I|exact (P3 I)].
+Qed.
+
 (* ------------------------------------------------------------------ whole files
-   read_denotes / write_wf / write_denotes / read_write_read / write_read_write at FILE level are
-   _partial: proved above are the line-level statements they are assembled from (classification,
-   read-back and generation equality of hit/hold lines, column and code arithmetic, truncation), and
-   the refutations.  Missing for the file level: (1) the section split of the model (index of
-   "[TimingPoints]" / "[HitObjects]" + slices) against OsuSpec.section on texts with canonical header
-   order, (2) the 30-key metadata loop against denote_key (one step is meta_value_agrees), (3) float
-   printing: bpm / SV / float attributes are written by repr / ':g', an oracle, so the written text is not
-   a function of the model alone; (4) read_bpm / read_sv line lemmas for arbitrary decimal texts.
+   read_denotes / write_wf / write_denotes / read_write_read / write_read_write at FILE level remain
+   _partial.  Proved above, for all inputs: the section split (section_split: the model's index/slices =
+   the specification's sections), reader = osu_denote on every classified timing-point / SV / hit / hold
+   line (read_bpm_denotes, read_sv_denotes, read_hit_denotes, read_hold_denotes), one step of the
+   metadata loop (meta_line_cut: model key/value = format key/value on every line), classification,
+   read-back and generation equality of written note lines, column and code arithmetic, truncation.
+   Still missing for the file-level statements: (1) lifting the line theorems through filter/omap to the
+   lists (needs: every non-blank line of a list section is classified, i.e. wf_read_text), (2) the
+   30-key metadata loop against denote_key (induction over the lines with meta_line_cut as the step;
+   plus background/sample events), (3) float printing: bpm / SV / float attributes are written by
+   repr / ':g', an oracle, so the written text is not a function of the model alone.
    These are covered on every run by the in-Coq correspondence (Corr/RunC01.v) where osu_denote and
    wf_osu_text are EVALUATED on the implementation's outputs. *)
 
